@@ -71,7 +71,9 @@ CLAIMED = {
          "Seeded search over interleavings of pollers/sender goroutine and producers on the real pollQueue/packetQueue (and full stack), with stalls injected exactly between emptiness check and wait; hand-off latency above the overlapping injected stalls is a lost wake-up.",
          "§7 C19", TB),
 }
-PENDING = {}
+PENDING = {
+ "C09": "not applicable to deterministic simulation with fault injection: the property quantifies over inputs only (packet types, namespaces, ids, event names, argument trees); Encode and the decode closure are pure functions of their input with no schedule, clock, fault or interleaving in them, so there is nothing for a simulator to decide. Input generation dressed in simulator vocabulary would not be this technique. What touches schedules is covered elsewhere: the 'leaves its input intact' clause was observed failing inside the simulation of C16 (a value broadcast twice crashed the process; two tasks emitting one value raced) and was repaired there (fix 28e35f3); intactness of arguments over the wire under concurrency is C01's oracle; hostile frames against the decoder are C10's. See DESIGN.md §7 C09.",
+}
 
 def main():
     props = [json.loads(l) for l in open(os.path.join(ROOT, "properties.jsonl"))]
